@@ -76,6 +76,33 @@ var c05Documented = []struct{ ID, Doc, How string }{
 	{"listing-order", "neither Client.ReadDir nor os.File.Readdir (which the server calls) promise an order", "ReadDir names and Glob matches are compared as sorted lists"},
 }
 
+// c05Observed: differences that exist on the unchanged package and that DESIGN.md (section 15.2, "observations outside
+// the properties' quantifiers") places outside C05: the CLIENT's composites do their own lexical path handling, so
+// with a non-canonical spelling they differ from package os whatever the server does.  The generator keeps such
+// spellings away from RemoveAll and Walk (c05Gen.spell); what is left is counted, shown in a note, and not reported.
+var c05Observed = []struct{ Key, Why string }{
+	{"remove/error-from-stat-fallback", "Client.Remove(\"dangling-link/\"): REMOVE and RMDIR fail with ENOTDIR like os.Remove, then the client Stats the path to choose between the two errors and returns the STAT error (not-exist); only with a trailing slash on a dangling symbolic link"},
+}
+
+// observedOnly: the key is in c05Observed and its mechanism is present on tree B (the operation failed on both sides,
+// so the tree is as it was): the path ends in a slash and names, without it, a symbolic link that leads nowhere.
+func (r *c05Run) observedOnly(key string, op c05Op) bool {
+	found := false
+	for _, o := range c05Observed {
+		found = found || o.Key == key
+	}
+	t := strings.TrimRight(op.P, "/")
+	if !found || t == op.P || t == "" {
+		return false
+	}
+	fi, err := os.Lstat(r.pB(t))
+	if err != nil || fi.Mode()&os.ModeSymlink == 0 {
+		return false
+	}
+	_, err = os.Stat(r.pB(t))
+	return errors.Is(err, os.ErrNotExist)
+}
+
 // ---------------------------------------------------------------------------------------------
 // a real client/server pair over in-memory pipes
 
@@ -239,8 +266,46 @@ func (r *c05Run) escapes(op c05Op) string {
 		if why := check("", r.pB(p)); why != "" {
 			return why
 		}
+		// ".." segments (after a symbolic link, too) must not lead to the directories the twin trees hang in: an
+		// operation on the scratch directory itself would act on both trees at once
+		if p != "" {
+			for _, abs := range []string{c05Join(r.rootA, p), c05Join(r.rootB, p)} {
+				res, _, _ := lib.ResolveLike(abs)
+				for _, q := range []string{res, filepath.Clean(abs)} {
+					if q == r.parentA || q == r.parentB || !strings.HasPrefix(q, r.base+"/") {
+						return "the path names a directory the twin trees hang in: " + q
+					}
+				}
+			}
+		}
 	}
 	return ""
+}
+
+// opensFifo reports whether the operation would open(2) a fifo (on either twin tree): that waits for the fifo's
+// other end — in the server as in package os — and what is written to one does not go through WriteAt; opening
+// fifos is not among the name-space operations of the property.
+func (r *c05Run) opensFifo(op c05Op) bool {
+	var rels []string
+	switch op.K {
+	case "create", "openfile":
+		rels = []string{op.P}
+	case "removeall": // os.RemoveAll opens the parent directory of its argument with a plain open(2)
+		for i := 1; i < len(op.P); i++ {
+			if op.P[i] == '/' {
+				rels = append(rels, op.P[:i])
+			}
+		}
+	}
+	for _, rel := range rels {
+		// as written and lexically cleaned (what a working directory, or a defective server, makes of it)
+		for _, p := range []string{c05Join(r.rootA, rel), c05Join(r.rootB, rel), path.Join(r.rootA, rel), path.Join(r.rootB, rel)} {
+			if fi, err := os.Stat(p); err == nil && fi.Mode()&os.ModeNamedPipe != 0 {
+				return true
+			}
+		}
+	}
+	return false
 }
 
 // pA is the path the client is given, pB the path package os is given.
@@ -402,7 +467,9 @@ func (r *c05Run) fiLine(fi os.FileInfo) string {
 	if fi.IsDir() {
 		size = "-" // os.FileInfo.Size: "system-dependent" for directories (on ext4 it even differs between two directories filled alike)
 	}
-	return fmt.Sprintf("name=%q size=%s mode=%s dir=%v mtime=%s uid=%d gid=%d", fi.Name(), size, fi.Mode().String(), fi.IsDir(), r.mtimeClass(fi.ModTime()), uid, gid)
+	// every accessor on its own: IsDir() is a method of the value, not derived from Mode() by the caller
+	return fmt.Sprintf("name=%q size=%s mode=%s dir=%v mode.dir=%v mode.regular=%v mode.type=%s mtime=%s uid=%d gid=%d", fi.Name(), size, fi.Mode().String(), fi.IsDir(),
+		fi.Mode().IsDir(), fi.Mode().IsRegular(), fi.Mode().Type().String(), r.mtimeClass(fi.ModTime()), uid, gid)
 }
 
 func (r *c05Run) listLines(l []os.FileInfo) []string {
@@ -638,7 +705,8 @@ func (r *c05Run) execB(op c05Op) c05Out {
 		s, err := os.Getwd() // the server runs in this process
 		return c05Res(err, "path="+r.norm(s))
 	case "readdir", "readdirctx":
-		f, err := os.Open(p)
+		// opened the way os.ReadDir opens a directory (O_DIRECTORY): a fifo is not waited for, a device is not opened
+		f, err := os.OpenFile(p, os.O_RDONLY|syscall.O_DIRECTORY, 0)
 		if err != nil {
 			return c05Res(err)
 		}
@@ -779,7 +847,8 @@ type c05SeqResult struct {
 	cases    []c05Case
 	hist     map[string]int
 	tieErr   string
-	orderOff int // glob / readdir results equal as sets but in another order than the os side
+	observed *c05Failure // first difference of the sequence that table c05Observed places outside the quantifier
+	orderOff int         // glob / readdir results equal as sets but in another order than the os side
 }
 
 func c05Hash(lines []string) string {
@@ -817,7 +886,7 @@ func c05RunSeq(mode string, tree []c05Ent, ops []c05Op, gen *rand.Rand, n int, l
 	defer run.close()
 	var g *c05Gen
 	if ops == nil {
-		g = &c05Gen{rng: gen, rootB: run.rootB}
+		g = &c05Gen{rng: gen, rootB: run.rootB, pmode: mode}
 	} else {
 		n = len(ops)
 	}
@@ -879,8 +948,22 @@ func c05RunSeq(mode string, tree []c05Ent, ops []c05Op, gen *rand.Rand, n int, l
 			}
 			continue
 		}
+		if run.opensFifo(op) {
+			res.in.Ops = res.in.Ops[:len(res.in.Ops)-1]
+			if !light {
+				res.hist["not-run/open-of-a-fifo-waits-for-its-other-end"]++
+			}
+			continue
+		}
 		outA := c05Guard(func() c05Out { return run.execA(op) })
-		outB := run.execB(op)
+		// package os is not under test, but a call of it that does not return (an open(2) that waits) must not cost the run
+		osDone := make(chan c05Out, 1)
+		go func() { osDone <- run.execB(op) }()
+		outB, osOK := lib.WaitHang("c05/package-os-side", 20*time.Second, osDone)
+		if !osOK {
+			res.tieErr = "the package os side of " + c05OpText(op) + " did not return within 20 s"
+			return res
+		}
 		if op.K == "chtimes" { // the tree state Chtimes is about, observed before the snapshots read the files
 			outA.Vals = append(outA.Vals, run.timesAfter(c05Join(run.rootA, op.P)))
 			outB.Vals = append(outB.Vals, run.timesAfter(run.pB(op.P)))
@@ -1006,6 +1089,12 @@ func c05RunSeq(mode string, tree []c05Ent, ops []c05Op, gen *rand.Rand, n int, l
 				Actual:   map[string]any{"side": "Client/Server on tree A", "result": c05TrimOut(outA), "tree_diff(-os,+sftp)": c05TrimLines(diff)}}
 			f.Key, f.What = run.classify(op, what, outA, outB, diff, leafIsLink, leafIsLinkSlash, selfRef)
 			f.Sig = fmt.Sprintf("%s/os=%s,sftp=%s", what, outB.Cat, outA.Cat)
+			if run.observedOnly(f.Key, op) {
+				// a genuine difference of the unchanged package with its own, exact key (recorded in
+				// /verif/known_findings.json); every other instance of the base key stays a plain failure
+				res.hist["known-class:"+f.Key+"/dangling-link-trailing-slash"]++
+				f.Key += "/dangling-link-trailing-slash"
+			}
 			res.failures = append(res.failures, f)
 			if outA.Cat == "hang" {
 				return res // the connection is in an unknown state
@@ -1087,7 +1176,7 @@ func (r *c05Run) classify(op c05Op, what string, a, b c05Out, diff []string, lea
 	switch {
 	case op.K == "removeall" && nonCanonical(op.P):
 		return "removeall/non-canonical-path", "os.RemoveAll normalises its argument before touching the tree (strips trailing slashes, refuses a final \".\" with EINVAL); Client.RemoveAll hands the text to STAT/READDIR/REMOVE as written"
-	case op.K == "remove" && what == "category" && a.Cat == "not-exist" && b.Cat != "not-exist":
+	case op.K == "remove" && what == "category" && a.Cat == "not-exist" && b.Cat != "not-exist" && b.Cat != "ok":
 		if _, err := os.Stat(r.pB(op.P)); errors.Is(err, os.ErrNotExist) {
 			return "remove/error-from-stat-fallback", "REMOVE and RMDIR both failed with a non-ENOENT error (as os.Remove does), but Client.Remove then Stats the path and returns the STAT error (not-exist) instead"
 		}
@@ -1291,12 +1380,13 @@ func c05Shrink(in c05Input, key, sig string, step int, until time.Time) c05Input
 var c05WantedShapes = []string{
 	"dangling-symlink", "dir-symlink", "file-symlink", "symlink-loop", "file-where-dir-expected", "non-empty-dir", "empty-dir",
 	"missing-parent", "missing-leaf", "file", "hardlinked-file", "through-dangling-symlink", "file-where-dir-expected-via-symlink",
+	"socket", "fifo", "char-device", "block-device", "special-file-where-dir-expected", "special-file-symlink",
 	"*via-symlink", "dst:non-empty-dir", "dst:file", "dst:dir-symlink", "dst:dangling-symlink", "dst:missing-parent", "dst:file-where-dir-expected",
 }
 
 func checkC05(c *lib.Ctx) {
 	r := c.R
-	r.Rule = "twin trees (seeded random small tree: dirs, files, relative/absolute/dangling/looping symlinks, hard links; one entry in five already carries boundary times, one in eight a boundary owner, some files a sparse boundary size) under one scratch dir; tree A served by a real os-backed Server to a real Client over pipes, tree B operated with package os; PRNG sequences of 25 operation kinds (the 23 of the property plus ReadDirContext with a live / cancelled / concurrently cancelled context, and Getwd) over the names a b c d with nesting <= 3 (paths biased to existing entries, their children, dir-symlinks, dangling links, non-empty dirs, files used as directories), absolute paths and working-directory-relative paths (WithServerWorkingDirectory); attribute values are drawn from boundary tables with probability 0.4 (Chtimes seconds 0, 1, 2^31-1, 2^31, 2^32-1, atime != mtime in half of the calls), 0.15 (Truncate to 0, 1, 2^31-1, 2^31, 2^32-1, 2^32, 2^32+1: sparse files), 0.7 (Chown uid/gid 0, 1, 65534, 65535, 65536, 2^31-1, 2^31, 2^32-2, -1), Chmod with setuid/setgid/sticky in one call of four each; after every step: outcome category, returned values (FileInfo name, size of non-directories, mode, ModTime to the second, owner; Walk with the FileInfo of every visit), access and modification time left by Chtimes, snapshot of both trees (names, types, modes, sizes, nlink, owners, contents — large files by their non-zero blocks —, link texts, mtimes that are not of the run itself). DIRECTED sequences (c05_attr.go), each in both path modes: every boundary time set through Chtimes on a file / directory / through a link (both times, only one of the two, two different boundaries) and already present on the entries, every boundary size set by Truncate and already present, every setuid/setgid/sticky combination set and already present, every boundary owner set and already present — each followed by Stat, Lstat, ReadDir, ReadDirContext, Walk, Glob and by unrelated changes; directories of 129 / 1024 / 1100 entries (files, sub-directories, links) with names of 1 / 120 / 200 / 255 bytes listed by ReadDir, ReadDirContext (live, cancelled), through a link, Walk, Glob, then RemoveAll (thorough: 14 entry counts 0..4100 x 10 name lengths, all 36 atime/mtime pairs, more sizes and modes). One case = (path mode, operation, tree state before); non-trivial = the os outcome is an error category, or the tree changes, or a path goes through a symbolic link. quick: 150 generated sequences of 20..40 operations + 156 directed; thorough: 6000 of 60..120, 1000 of 200..400 + the directed ones; half of the sequences in each path mode. Every failing sequence is delta-debugged on fresh twin trees (operations, entry count and name length of filled directories by bisection, then seed-tree entries) within a time bound before it is reported; up to three witnesses with different signatures per key; a client that has lost its connection is replaced so that the rest of the sequence is judged on its own"
+	r.Rule = "twin trees (seeded random small tree: dirs, files, relative/absolute/dangling/looping symlinks, hard links, one entry in eight a SPECIAL FILE — unix socket, fifo, character or block device node (mknod, device number 0:0; what the scratch file system allows is in the histogram storable:kind/*) —; one entry in five already carries boundary times, one in eight a boundary owner, some files a sparse boundary size) under one scratch dir; tree A served by a real os-backed Server to a real Client over pipes, tree B operated with package os; PRNG sequences of 25 operation kinds (the 23 of the property plus ReadDirContext with a live / cancelled / concurrently cancelled context, and Getwd) over the names a b c d with nesting <= 3 (paths biased to existing entries, their children, dir-symlinks, dangling links, non-empty dirs, files used as directories, special files themselves and used as directories), absolute paths and working-directory-relative paths (WithServerWorkingDirectory); one ABSOLUTE path in eight is spelled NON-CANONICALLY (trailing slash on files / directories / links of every kind, './', '/./', '//', a final '.', 'x/../p' over anything, 'link/../name' and 'link/..' after a symbolic link to a directory, 'e/../e') — the server has no working directory there and the kernel resolves what the client wrote; relative paths with a working directory, and RemoveAll / Walk in either mode, get such spellings only with VERIF_C05_NONCANON=1 (c05Gen.spell says why); operations that would open(2) a fifo are not run (they wait for its other end); attribute values are drawn from boundary tables with probability 0.4 (Chtimes seconds 0, 1, 2^31-1, 2^31, 2^32-1, atime != mtime in half of the calls), 0.15 (Truncate to 0, 1, 2^31-1, 2^31, 2^32-1, 2^32, 2^32+1: sparse files), 0.7 (Chown uid/gid 0, 1, 65534, 65535, 65536, 2^31-1, 2^31, 2^32-2, -1), Chmod with setuid/setgid/sticky in one call of four each; after every step: outcome category, returned values (every accessor of every FileInfo: Name, Size of non-directories, Mode, IsDir, Mode().IsDir, Mode().IsRegular, Mode().Type, ModTime to the second, owner; Walk with the FileInfo of every visit), access and modification time left by Chtimes, snapshot of both trees (names, types, modes, sizes, nlink, owners, contents — large files by their non-zero blocks —, link texts, mtimes that are not of the run itself). DIRECTED sequences (c05_attr.go), each in both path modes: every boundary time set through Chtimes on a file / directory / through a link (both times, only one of the two, two different boundaries) and already present on the entries, every boundary size set by Truncate and already present, every setuid/setgid/sticky combination set and already present, every boundary owner set and already present — each followed by Stat, Lstat, ReadDir, ReadDirContext, Walk, Glob and by unrelated changes; FILE KINDS: for each of socket / fifo / character device / block device a tree holding such entries (plain, hard-linked, behind a symbolic link, inside sub-directories, with boundary owner / time / setgid) under Stat, Lstat, ReadLink, ReadDir, ReadDirContext, Walk, Glob, RealPath, StatVFS, MkdirAll / Mkdir / Create / Rename / Link / Symlink THROUGH them, Chmod / Chtimes / Chown / Truncate, Link / Rename / PosixRename / Remove / RemoveDirectory OF them, RemoveAll of the directories holding them; NON-CANONICAL ABSOLUTE PATHS (abs mode only): 41 spellings x every operation kind but RemoveAll in six sequences (look, list, attr, create, rename, remove) over a tree where 'a/up/..' is not 'a'; directories of 129 / 1024 / 1100 entries (files, sub-directories, links) with names of 1 / 120 / 200 / 255 bytes listed by ReadDir, ReadDirContext (live, cancelled), through a link, Walk, Glob, then RemoveAll (thorough: 14 entry counts 0..4100 x 10 name lengths, all 36 atime/mtime pairs, more sizes and modes). One case = (path mode, operation, tree state before); non-trivial = the os outcome is an error category, or the tree changes, or a path goes through a symbolic link. quick: 150 generated sequences of 20..40 operations + 170 directed; thorough: 6000 of 60..120, 1000 of 200..400 + the directed ones; half of the sequences in each path mode. Every failing sequence is delta-debugged on fresh twin trees (operations, entry count and name length of filled directories by bisection, then seed-tree entries) within a time bound before it is reported; up to three witnesses with different signatures per key; a client that has lost its connection is replaced so that the rest of the sequence is judged on its own"
 	old := syscall.Umask(0o022) // documented: create/mode
 	defer syscall.Umask(old)
 	ids := []string{}
@@ -1500,6 +1590,9 @@ func c05Merge(r *lib.Result, res *c05SeqResult, idx *int) {
 	}
 	for _, k := range lib.SortedKeys(res.hist) {
 		r.HistAdd(k, res.hist[k])
+	}
+	if o := res.observed; o != nil && r.HistGet("observed-outside-quantifier:"+o.Key) == res.hist["observed-outside-quantifier:"+o.Key] {
+		r.Note("observed, outside the quantifier (table c05Observed), not reported: %s at %s [%s paths]: os %v, sftp %v", o.Key, c05OpText(o.Op), res.in.Mode, o.Expected, o.Actual)
 	}
 	if idx != nil && *idx < 4 {
 		ops := res.in.Ops
